@@ -324,3 +324,13 @@ def run(ck, prog):
 
 
 EXPLANATION += (' dot: the four unit-dimension tests form the same truth table on every backend; max_diff rejects a shape mismatch on every backend (found and fixed).')
+
+
+# ------------------------------------------------------------------ generic: `while counter < bound` loops advance their counter
+_run_pre_progress = run
+
+
+def run(ck, prog):
+    _run_pre_progress(ck, prog)
+    from sa import progress
+    progress.run_rule(ck, prog, set(DIMENSION_FILES))
